@@ -15,7 +15,47 @@ LEVEL = "model_checking"
 
 def configs(tier):
     cs = [(c, p) for c in sorted(wcommon.SPEC_DECODABLE) for p in ((64, 128, 1 << 20) if tier == "quick" else (64, 128, 4096, 1 << 20))]
+    # GZIP / ZSTD: page bodies are opaque to the specification, everything around them is judged (layout-only parse)
+    cs += [(c, p) for c in sorted(set(wcommon.CODECS) - wcommon.SPEC_DECODABLE) for p in ((64, 1 << 20) if tier == "quick" else (64, 4096, 1 << 20))]
     return cs
+
+
+def codec_function_part(chk, tier):
+    """Writer.tla makes the file a function of the history (CompressW is an operator, not a state machine): the page
+    compressors must therefore be functions of their input. Each TLC-enumerated LZ-structured input is compressed in two
+    processes, after different predecessors (original / reversed order, all codecs interleaved); the blocks must be
+    identical. State kept between calls (static or thread-local match tables, contexts) shows up here."""
+    from checks import c10, codecs_lib as cl
+    cases, r = c10.dir2_descs(tier)
+    chk.add_tlc(r)
+    r2 = cl.tlc_gen("MC_CodecFn", "Counts = {9, 40, 130%s}\nMods = {1, 2, 3, 5, 16%s}\nVCounts = {60, 500}\nVSeeds = {%s}\nLitLens = {3, 17}\nRepOffs = {8, 24, 40}\n"
+                    "RepLens = {5, 64, 300}\nMaxSegs = %d" % (("", "", ", ".join(map(str, range(1, 13))), 2) if tier == "quick" else (", 512", ", 7, 100", ", ".join(map(str, range(1, 41))), 3)), what="MC_CodecFn")
+    chk.add_tlc(r2)
+    page_like = sorted({cl.desc_str(c["desc"]) for c in r2.cases})
+    binary = common.build_harness("h_codec")
+    descs = sorted({cl.desc_str(c["desc"]) for c in cases})
+    if tier == "quick":
+        descs = descs[::max(1, len(descs) // 1000)]
+    descs = sorted(set(descs) | set(page_like))
+    lines = ["k%d_%s rec %s 0 %s" % (i, cod, cod, d) for i, d in enumerate(descs) for cod in ("snappy", "lz4", "gzip", "zstd")]
+    a, fa, _ = cl.run_parallel(binary, lines, nproc=4, batch=(len(lines) + 3) // 4, leaks=False)
+    rl = list(reversed(lines))
+    b, fb, _ = cl.run_parallel(binary, rl, nproc=3, batch=(len(rl) + 2) // 3, leaks=False)
+    n = 0
+    for ln in lines:
+        cid = ln.split(" ", 1)[0]
+        if cid not in a or cid not in b:
+            continue
+        n += 1
+        chk.count(("codec-fn", ln.split(" ", 1)[1]), True)
+        if a[cid] != b[cid]:
+            cod = cid.split("_")[1]
+            chk.violation("file:nondeterministic:compressor-" + cod,
+                          "%s: the same input compressed twice (different predecessors in the process) gives different blocks" % cod,
+                          {"line": ln, "first": a[cid], "second": b[cid]})
+    for f in fa + fb:
+        chk.violation("fault:" + f.signature(), "fault while compressing", getattr(f, "stderr", ""))
+    chk.part("compressors_are_functions", inputs=len(descs), compared=n, codecs=["snappy", "lz4", "gzip", "zstd"])
 
 
 def histories(chk, tier):
@@ -33,8 +73,8 @@ def histories(chk, tier):
 
 def run(chk, tier, replay):
     chk.assumptions += ["Reference reader = ParquetFile.tla (+ThriftCompact, Hybrid, Crc32) transcribed from the format documents, self-checked (MC_ThriftSelf, MC_HybridSelf, MC_LibSelf)",
-                        "Page bodies of codecs the TLA+ reader cannot decompress are not judged here: " + str(sorted(set(wcommon.CODECS) - wcommon.SPEC_DECODABLE)),
-                        "Determinism is observed on two runs (perturbed heap), absence of uninitialised reads is not proved"]
+                        "Page bodies of GZIP / ZSTD pages are opaque to the TLA+ reader: for those files every predicate that does not need the decoded body is judged (ParseLayout)",
+                        "Determinism is observed on two runs (perturbed heap, different predecessor in the process) and on every compressor called twice after different predecessors; absence of uninitialised reads is not proved"]
     for m in ("MC_ThriftSelf",):
         r = common.tlc_ok(common.run_tlc(m, workers=4, want_cases=False), m)
         if r.violated:
@@ -57,5 +97,6 @@ def run(chk, tier, replay):
     chk.part("files", parsed_by_tlc=stats["execs"], events=stats["events"], histories=len(hs),
              configs=[(wcommon.CODECS[c], p) for c, p in cfgs])
     report(chk, verdicts, meta, lambda w: w.startswith("file:") or w.startswith("fault:"))
+    codec_function_part(chk, tier)
     chk.cov["rule"] = ("one case per (history, codec, page_size); the produced bytes are parsed by ParquetFile.tla; distinct = distinct file "
                        "bytes; non-trivial = >= 2 batches in some column or >= 1 null")
